@@ -13,7 +13,8 @@
    passes. BugH13 = FALSE models the repaired code.                                              *)
 EXTENDS Integers, Sequences, FiniteSets, TLC
 
-CONSTANT BugH13
+CONSTANTS BugH13,
+          Full     \* exhaustive model only: TRUE = every authorisation of the eACL part, FALSE = good and single-fault ones (quick tier)
 
 Ops == {"create", "createV2", "remove", "putEACL", "setAttr", "rmAttr"}
 CreateOps == {"create", "createV2"}
@@ -116,6 +117,9 @@ NearGoodCnr == {GoodCnr} \cup {[GoodCnr EXCEPT !.sysAttr = "forbidden"], [GoodCn
                                [GoodCnr EXCEPT !.rules = "ec"], [GoodCnr EXCEPT !.decodes = FALSE]}
 Base == [op |-> "remove", a |-> GoodAuth, c |-> GoodCnr, withEACL |-> FALSE, e |-> GoodEacl, ea |-> GoodAuth,
          exists |-> TRUE, idOK |-> TRUE, expired |-> FALSE]
+\* authorisations with at most one fact wrong
+NearAuths == {a \in Auths : a.auth = "sig" \/
+                Cardinality({f \in {"issuerOwner", "sigOK", "verbOK", "cidOK", "lifeOK", "sessSig"} : ~a.tok[f]}) <= 1}
 V2Live == {x \in Auths : x.auth = "v2" /\ x.tok.issuerOwner /\ x.tok.lifeOK}
 
 VARIABLES in, out
@@ -124,7 +128,7 @@ vars == <<in, out>>
 InitIn ==
   \/ \E a \in Auths, c \in Cnrs : in = [Base EXCEPT !.op = "create", !.a = a, !.c = c]
   \/ \E a \in Auths, c \in {x \in Cnrs : x.nnsOK} : in = [Base EXCEPT !.op = "createV2", !.a = a, !.c = c]
-  \/ \E a \in {GoodAuth} \cup V2Live, c \in NearGoodCnr, e \in Eacls, ea \in Auths :
+  \/ \E a \in {GoodAuth} \cup V2Live, c \in NearGoodCnr, e \in Eacls, ea \in (IF Full THEN Auths ELSE NearAuths) :
         in = [Base EXCEPT !.op = "createV2", !.a = a, !.c = c, !.withEACL = TRUE, !.e = e, !.ea = ea]
   \/ \E a \in Auths, x \in BOOLEAN, i \in BOOLEAN : in = [Base EXCEPT !.op = "remove", !.a = a, !.exists = x, !.idOK = i]
   \/ \E a \in Auths, e \in Eacls, x \in BOOLEAN : in = [Base EXCEPT !.op = "putEACL", !.a = a, !.e = e, !.exists = x]
